@@ -349,7 +349,7 @@ func (t *FnTrans) storeComp(st *HeapState, l *Loc, cd compDesc, v string) {
 func (t *FnTrans) typeAssume(v Val) string {
 	switch v.K {
 	case VScalar:
-		if t.mode == ModeInt {
+		if t.mode.isInt() {
 			if w, s, ok := intInfo(v.T); ok {
 				return rangeInt(v.S, w, s)
 			}
@@ -374,7 +374,7 @@ func (t *FnTrans) typeAssume(v Val) string {
 }
 
 func (t *FnTrans) cmpIdx(op, a, b string) string {
-	if t.mode == ModeInt {
+	if t.mode.isInt() {
 		return sx(op, a, b)
 	}
 	m := map[string]string{"<": "bvslt", "<=": "bvsle", ">": "bvsgt", ">=": "bvsge"}
@@ -413,7 +413,7 @@ func (t *FnTrans) load(st *HeapState, l *Loc, guard string) Val {
 		return unknown(ty)
 	}
 	v := scalar(ty, t.selectComp(st, l, cds[0]))
-	if t.mode == ModeInt {
+	if t.mode.isInt() {
 		if _, _, ok := intInfo(ty); ok {
 			t.assume(guard, t.typeAssume(v), "integer loaded from memory is in range")
 		}
@@ -587,6 +587,9 @@ func (t *FnTrans) constVal(c constant.Value, ty types.Type) Val {
 	}
 	if w, ok := isFloat(ty); ok {
 		f, _ := constant.Float64Val(constant.ToFloat(c))
+		if t.mode.isReal() {
+			return scalar(ty, realLit(f))
+		}
 		if w == 32 {
 			return scalar(ty, f32Lit(float32(f)))
 		}
@@ -617,6 +620,9 @@ func (t *FnTrans) zeroVal(ty types.Type) Val {
 		return scalar(ty, t.mode.intLit64(0, w))
 	}
 	if w, ok := isFloat(ty); ok {
+		if t.mode.isReal() {
+			return scalar(ty, "0.0")
+		}
 		if w == 32 {
 			return scalar(ty, f32Lit(0))
 		}
